@@ -30,7 +30,7 @@ func init() {
 	reg.Register(runner.Check{
 		ID:    "C10",
 		Level: "fault_enumeration",
-		Rule: "hostile-input enumeration against the real endpoints: a peer holding a valid credential (user bob) sends validly encrypted segments built by the independent encoder: protocol type {0..12,255} x session id {0, own, the live session id of another user, unknown} x seq {0,1,2^32-1} x unAck {0,2^32-1} x window {0,65535} x fragment {0,255} x status code of session segments {0,1,2,255} x length fields {consistent, payload length too large, too small, exactly 1025, 65535, prefix too large, invalid low-entropy fields}, singly and as second segment after a valid open (also back to back with it and sealed under a second account of the hostile peer); on both transports, from the session's own address and from a second address, against the server (with a victim session of user alice running) and against the client (hostile server); " +
+		Rule: "hostile-input enumeration against the real endpoints: a peer holding a valid credential (user bob) sends validly encrypted segments built by the independent encoder: protocol type {0..12,255} x session id {0, own, the live session id of another user, unknown} x seq {0,1,2^32-1} x unAck {0,2^32-1} x window {0,65535} x fragment {0,255} x status code of session segments {0,1,2,255} x length fields {consistent, payload length too large, too small, exactly 1025, 65535, prefix too large, invalid low-entropy fields}, singly and as second segment after a valid open (also back to back with it and sealed under a second account of the hostile peer; also from UDP source port 0, where no reply can be sent); on both transports, from the session's own address and from a second address, against the server (with a victim session of user alice running) and against the client (hostile server); " +
 			"plus all unauthenticated inputs of C05's shapes; SOCKS5: every byte string of length <=5 over {00,01,02,03,04,05,ff} and every truncation / single-byte substitution of valid requests, responses and UDP headers into the request/response readers, the UDP datagram parser, UDPAssociateWrapper and the client-side authentication. tear-down of the UDP relay loops on a real session (egress control connection: byte / end of stream / reset; client close; downstream datagram in flight) under every schedule with <=1 deviation (quick) / <=2 (thorough), a deviation being a goroutine switch or a goroutine held up for 50 ms / 3 s before an atomic write. Oracle: no panic in any goroutine, no deadlock, the victim's transfer completes. distinct = distinct hostile programs / byte strings",
 		Assumptions: []string{
 			"a panic in any goroutine is a process crash (mieru has no recover)",
@@ -78,6 +78,7 @@ type hprog struct {
 	// peer's second account
 	backToBack bool
 	cred2      bool
+	port0      bool // the datagrams come from UDP source port 0 (no reply can be sent there)
 	segs       []hseg
 	seed       int64
 }
@@ -87,7 +88,7 @@ func (p hprog) String() string {
 	if p.udp {
 		t = "udp"
 	}
-	return fmt.Sprintf("%s second-addr=%v open-first=%v back-to-back=%v second-account=%v segs=%v", t, p.secondAddr, p.openFirst, p.backToBack, p.cred2, p.segs)
+	return fmt.Sprintf("%s second-addr=%v open-first=%v back-to-back=%v second-account=%v source-port-0=%v segs=%v", t, p.secondAddr, p.openFirst, p.backToBack, p.cred2, p.port0, p.segs)
 }
 
 func build(h hseg, own, victim uint32) (*refwire.Seg, func(*refwire.Seg)) {
@@ -230,6 +231,11 @@ func execClient(ps []hprog, ctl *explore.Ctl) explore.Result {
 					cr := bob
 					if p.cred2 {
 						cr = carol
+					}
+					if p.port0 {
+						w.Net.Inject(&net.UDPAddr{IP: net.IPv4(10, 88, byte(pi), 3), Port: 0}, srvAddr, refwire.EncodeDatagram(s, cr, refwire.EncodeOpts{Nonce: nonce(k), Unix: unix(), Tweak: tweak}))
+						vsched.Sleep(10 * time.Millisecond)
+						continue
 					}
 					from.WriteTo(refwire.EncodeDatagram(s, cr, refwire.EncodeOpts{Nonce: nonce(k), Unix: unix(), Tweak: tweak}), srvAddr)
 					if !p.backToBack {
@@ -527,6 +533,20 @@ func units(tier string) []runner.Unit {
 						if udp && role == "client" && (h.sidKind == 1 || h.sidKind == 2) {
 							if !run(hprog{udp: true, openFirst: true, secondAddr: true, segs: []hseg{h}}) {
 								return
+							}
+						}
+					}
+					// datagrams from UDP source port 0: whatever the server wants to answer cannot be sent
+					if udp && role == "client" {
+						for _, pr := range []uint8{2, 4, 5, 6, 8, 10} {
+							for sk := 0; sk < 4; sk++ {
+								pay := 0
+								if pr == 6 || pr == 10 || pr == 2 {
+									pay = 20
+								}
+								if !run(hprog{udp: true, port0: true, segs: []hseg{{proto: pr, sidKind: sk, seq: 1, window: 65535, payload: pay}}}) {
+									return
+								}
 							}
 						}
 					}
